@@ -129,6 +129,8 @@ pub struct Obs {
     pub panic_fired: bool,
     /// assert_properties() returned normally at a moment when is_done() (read afterwards) was false
     pub assert_ok_before_done: bool,
+    /// states generated as counted by the model (in-boundary initial states + in-boundary successors, with repeats)
+    pub model_generated: usize,
 }
 
 #[derive(Clone)]
@@ -369,6 +371,7 @@ pub fn run_s1(sc: &S1Scenario) -> Obs {
         timeout_deadline_wall_ns: timeout_deadline,
         spawn_panic,
         assert_ok_before_done: EARLY_ASSERT.with(|f| f.get()),
+        model_generated: model.generated.load(std::sync::atomic::Ordering::Relaxed),
         panic_fired: sc.graph.panic.is_some() && !model.panic_armed.load(std::sync::atomic::Ordering::SeqCst),
     }
 }
